@@ -38,7 +38,7 @@ MULTI = ['a,b', 'a-b', 'b', 'a', '', 'a,,b', '{}', 'x-{}', '{},a', 'é,a', 'a,é
 MULTI_META = ['1.5', '115', '1.5,115', 'a.c,abc', 'abc', 'a.c', 'x+', 'xx', 'x+,y', 'a|b', 'ab', '(', '(,)', 'a*', 'aa', 'a*-aa',
               '[z]', 'z', '^a', '$', 'a$', '\\d', '7', '\\d,7', 'A', 'a', 'aa,a', 'a?', '.', '.,q', 'q']
 SEL = ['', 'x', 'y', 'z', 'x&y', 'AND', 'x', 'é', '1', '11']
-NUM = ['0', '1', '2.5', '3', '10', '0.5', '7', '100', '']
+NUM = ['0', '1', '2.5', '3', '10', '0.5', '7', '100', '', '1_0', '0.05655136772680869', '"4"', '1e2', ' 6 ']
 RANDOM_CONTROLS = ['CONTROL-gaussian', 'CONTROL-uniform', 'CONTROL-random-binary', 'CONTROL-random-card100',
                    'CONTROL-random-card2k', 'CONTROL-random-card10k', 'CONTROL-random-card50k', 'CONTROL-volume']
 NONSTR = '\x00NONSTR:'
@@ -292,6 +292,38 @@ def model_requests(case, impl):
     return req
 
 
+_MINIMAL = {}
+
+
+def transform_content(case, out):
+    """"follows its stated rule" for the transformation step: every appended column <feature><transformer> of the minimal preset
+    must hold the transformer's formula (the regenerated C12 table, evaluated by C12's independent numpy interpreter) applied to
+    float() of the feature's cells (quotes dropped, empty = 0).  Which columns are emitted is C12's keep rule and not judged here."""
+    import math
+
+    import corr_C12 as t12
+    if not _MINIMAL:
+        _MINIMAL.update(dict(t12.model_tables()['gen']['minimal']))
+    cols = dict((a, b) for a, b in case['cols'])
+    for name, vals in out[len(case['cols']):]:
+        hit = [(f, k) for f in case['flags']['numeric'] for k in _MINIMAL if name == f + k]
+        if len(hit) != 1:
+            continue
+        f, k = hit[0]
+        try:
+            want = t12.texts_of(_MINIMAL[k], cols[f])
+        except Exception:      # noqa: BLE001 – cells float() rejects: the real code raises as well (judged elsewhere)
+            continue
+        for i, (g, w) in enumerate(zip(vals, want)):
+            try:
+                a, b = float(g), float(w)
+            except ValueError:
+                return f'column {name!r} row {i}: cell {g!r} is not a number (rule gives {w!r})'
+            if not ((math.isnan(a) and math.isnan(b)) or a == b or abs(a - b) <= 1e-12 * max(abs(a), abs(b))):
+                return f'column {name!r} row {i}: {g!r} but the rule {k!r} applied to the cell {cols[f][i]!r} gives {w!r}'
+    return None
+
+
 def oracle_requests(case, impl):
     """(tag, description, request) – Lean appendSpecB on every recorded (before, after) of the implementation"""
     req = []
@@ -498,6 +530,12 @@ def _evaluate(ctx: Ctx, cases, oracle_only=False):
                 ctx.oracle_fail('raises', f'single:{name} raised {r["err"]}', small)
             elif not r['input_after']:
                 ctx.oracle_fail('append-only', f'single:{name} modified its input frame in place', small)
+        tr = im['single'].get('transform')
+        if tr and tr['ok']:
+            bad = transform_content(c, tr['out'])
+            ctx.count('transform-content-checked')
+            if bad:
+                ctx.oracle_fail('transform-rule', f'single:transform: {bad}', small)
         for bi, b in enumerate(im['batches']):
             if 'err' in b:
                 ctx.oracle_fail('raises', f'compute_batch_ranking (batch {bi}) raised {b["err"]}', small)
